@@ -106,7 +106,7 @@ theorem process_resets (build : C → G) (p : Proc C G) : (process build p).1.ct
 /-! ### A concrete instance: Route → Service → EndpointSlice with predicates of the shape of `Graph.IsReferenced` -/
 
 open Mini in
-/-- Current code, full-strength statement is FALSE: deleting a slice of a referenced Service is judged
+/-- PRE-FIX code (before /repo ecaa5d2; regression detector): the full-strength statement is FALSE: deleting a slice of a referenced Service is judged
 irrelevant (bare type, no label), the applied upstream keeps the endpoint, a fresh controller has none. -/
 theorem mini_current_diverges_on_slice_delete :
     let w₀ : Cl := { routes := [(0, 7)], svcs := upd (fun _ => none) 7 (some 80),
@@ -127,7 +127,7 @@ theorem mini_current_diverges_on_owner_relabel :
   decide
 
 open Mini in
-/-- Current code, `_partial`: convergence for every history in which no slice is taken away from a
+/-- PRE-FIX code, `_partial`: convergence for every history in which no slice is taken away from a
 referenced Service (`Mini.adm`). -/
 theorem mini_current_converges_partial (w₀ : Cl) (hist : List (Step Mini.Kind Nat Mini.Obj))
     (ha : Admissible ops adm w₀ hist) :
@@ -136,15 +136,15 @@ theorem mini_current_converges_partial (w₀ : Cl) (hist : List (Step Mini.Kind 
   converges_of_sound_partial ops build rel watchAll Eq adm sound_current w₀ hist ha
 
 open Mini in
-/-- Repaired variant (slices persisted; predicate sees the stored and the new object): convergence for
-EVERY history. -/
+/-- **The code in the tree** (since ecaa5d2: slices persisted; predicate sees the stored and the new object):
+convergence for EVERY history — full strength, no exclusion. -/
 theorem mini_repaired_converges (w₀ : Cl) (hist : List (Step Mini.Kind Nat Mini.Obj)) :
     (run opsR build relR watchAll (start build w₀) (hist ++ [.cut])).applied
       = fresh build (finalWorld opsR w₀ hist) :=
   converges_of_sound opsR build relR watchAll Eq sound_repaired w₀ hist
 
 open Mini in
-/-- Repaired variant: no change that affects the derived output is discarded as irrelevant. -/
+/-- The code in the tree: no change that affects the derived output is discarded as irrelevant. -/
 theorem mini_repaired_no_relevant_change_discarded (s : Cl) (e : Ev)
     (h : build (storeAfter opsR s e) ≠ build s) :
     verdict opsR relR (some (build s)) s e = true := by
@@ -178,7 +178,7 @@ example :
 /-- Which kinds have a store and which a predicate in `NewChangeProcessorImpl` — as in the model's table. -/
 theorem store_table_as_modelled :
     ((Generated.Store.cfgKinds.zip Generated.Store.cfgStores).filter (·.2 != "none")).map (·.1) = persistedKinds ∧
-    ((Generated.Store.cfgKinds.zip Generated.Store.cfgStores).filter (·.2 == "none")).map (·.1) = ["EndpointSlice"] ∧
+    ((Generated.Store.cfgKinds.zip Generated.Store.cfgStores).filter (·.2 == "none")).map (·.1) = [] ∧
     ((Generated.Store.cfgKinds.zip Generated.Store.cfgPredicates).filter (·.2 != "nil")).map (·.1) = predKinds ∧
     Generated.Store.cfgKinds.length = Generated.Store.cfgStores.length ∧
     Generated.Store.cfgKinds.length = Generated.Store.cfgPredicates.length ∧
@@ -196,10 +196,11 @@ theorem updater_as_modelled :
        "return stateChanged.upsert(oldObj, obj)"] ∧
     Generated.Store.updater_delete =
       ["objTypeGVK := s.extractGVK(objType)",
-       "if s.store.persists(objTypeGVK) { if s.store.get(objType, nsname) == nil { return false } s.store.delete(objType, nsname) }",
+       "subject := client.Object(objType)",
+       "if s.store.persists(objTypeGVK) { old := s.store.get(objType, nsname) if old == nil { return false } subject = old s.store.delete(objType, nsname) }",
        "stateChanged, ok := s.stateChangedPredicates[objTypeGVK]",
        "if !ok { return true }",
-       "return stateChanged.delete(objType, nsname)"] ∧
+       "return stateChanged.delete(subject, nsname)"] ∧
     Generated.Store.updater_Upsert =
       ["s.assertSupportedGVK(s.extractGVK(obj))", "changingUpsert := s.upsert(obj)", "s.setChangeType(obj, changingUpsert)"] ∧
     Generated.Store.updater_Delete =
@@ -216,14 +217,16 @@ theorem updater_as_modelled :
        "return changeType, c.latestGraph"] := by
   decide +kernel
 
-/-- The predicates are evaluated against the LATEST graph; a funcPredicate sees the new object on upsert
-and the bare registered type on delete (the Reconciler puts nothing else into a DeleteEvent). -/
+/-- The predicates are evaluated against the LATEST graph; a funcPredicate judges the new AND the stored object
+on upsert; on delete the updater hands it the stored object (the Reconciler puts nothing but the bare registered
+type and the name into a DeleteEvent). -/
 theorem predicates_as_modelled :
     Generated.Store.isReferencedBody =
       ["return processor.latestGraph != nil && processor.latestGraph.IsReferenced(obj, nsname)"] ∧
     Generated.Store.funcPredicate_upsert =
       ["if newObject == nil { panic(\"new object cannot be nil\") }",
-       "return f.stateChanged(newObject, client.ObjectKeyFromObject(newObject))"] ∧
+       "nsname := client.ObjectKeyFromObject(newObject)",
+       "return f.stateChanged(newObject, nsname) || (oldObject != nil && f.stateChanged(oldObject, nsname))"] ∧
     Generated.Store.funcPredicate_delete = ["return f.stateChanged(object, nsname)"] ∧
     Generated.Store.annotationPredicate_delete = ["return true"] ∧
     Generated.Store.reconcilerDeleteEvent =
